@@ -274,7 +274,11 @@ type outcome struct {
 
 type scenarioResult struct {
 	Scenario     scenario  `json:"scenario"`
-	PresentedCN  string    `json:"presented_cn"`
+	PresentedCN  string    `json:"presented_cn"` // the account that published / would have to publish the certificate
+	ParsedCN     string    `json:"presented_subject_common_name_as_parsed,omitempty"`
+	ChainRefused string    `json:"chain_refused_registration,omitempty"`
+	Sound        bool      `json:"oracle_sound"`
+	Strict       bool      `json:"oracle_must_accept"`
 	PresentedPEM string    `json:"presented_pem,omitempty"`
 	OnChainPEM   string    `json:"onchain_pem,omitempty"`
 	ChainLog     []string  `json:"chain_msgs"`
@@ -305,11 +309,20 @@ func runScenario(sc scenario, tier string, only *request) (*scenarioResult, erro
 	if sc.Present != prNone {
 		presented = makeCert(specFor(sc.Kind, tenant, other, sc.serial(), now))
 		res.PresentedCN = presented.X509.Subject.CommonName
+		res.ParsedCN = presented.X509.Subject.CommonName
+		if sc.Kind == kMultiCNTenantFirst {
+			res.PresentedCN = tenant // the account holding the key and trying to publish it
+		}
 		res.PresentedPEM = string(presented.PEM)
 		switch sc.Chain {
 		case chSameValid, chSameRevoked:
 			if err := ch.create(tenant, presented); err != nil {
-				return nil, machErr{fmt.Sprintf("%s: registering the presented certificate: %v", sc, err)}
+				if sc.Kind != kMultiCNTenantFirst {
+					return nil, machErr{fmt.Sprintf("%s: registering the presented certificate: %v", sc, err)}
+				}
+				// expected: the chain sees CommonName = the other tenant and refuses; nothing is on chain
+				res.ChainRefused = err.Error()
+				break
 			}
 			res.OnChainPEM = string(presented.PEM)
 			if sc.Chain == chSameRevoked {
@@ -348,6 +361,8 @@ func runScenario(sc scenario, tier string, only *request) (*scenarioResult, erro
 		}
 	}
 	res.ChainLog = ch.log
+	res.Sound = sc.sound() && res.ChainRefused == ""
+	res.Strict = sc.strict() && res.ChainRefused == ""
 
 	// the gateway, built by the real constructor
 	rec := &recorder{}
@@ -572,9 +587,13 @@ func judgeStep(in verdictInput) []violation {
 
 func judge(res *scenarioResult) []violation {
 	sc := res.Scenario
+	reason := sc.rejectReason()
+	if res.ChainRefused != "" {
+		reason = "not-on-chain"
+	}
 	return judgeStep(verdictInput{
-		Label: sc.String(), Present: sc.Present != prNone, Sound: sc.sound(), Strict: sc.strict(),
-		SigKind: sc.sigKind(), Reason: sc.rejectReason(), Publisher: res.PresentedCN,
+		Label: sc.String(), Present: sc.Present != prNone, Sound: res.Sound, Strict: res.Strict,
+		SigKind: sc.sigKind(), Reason: reason, Publisher: res.PresentedCN,
 		DirectOK: res.DirectOK, DirectErr: res.DirectErr, Outcomes: res.Outcomes,
 	})
 }
